@@ -102,7 +102,7 @@ def sweep(prop: str, rep) -> Dict[str, list]:
         for fi in funcs:
             if not (fi.rel.startswith("synkit/Graph/Matcher/") or fi.rel.startswith("synkit/Graph/Canon/")):
                 continue
-            for node, kind, tie in selections(fi):
+            for node, kind, tie, _txt in selections(fi):
                 rows.append({"site": f"{fi.key}:{getattr(node, 'lineno', 0)}", "kind": kind, "tie_break": tie})
         out["selections_in_matcher_and_canon"] = rows
     if prop in SWEEPS["R14"]:
